@@ -1597,7 +1597,9 @@ static void CodeBINCLUDE(Word Index) {
                     return;
                 }
             }
-            if (!ChkPC(EProgCounter() + Len - 1)) {
+            /* nothing to include: the address of a 'last byte' does not exist */
+
+            if ((Len > 0) && !ChkPC(EProgCounter() + Len - 1)) {
                 WrError(ErrNum_AdrOverflow);
             } else {
                 errno = 0;
